@@ -7,6 +7,7 @@ import JunoModel.C12.ProofsRefine
 import JunoModel.C12.ProofsNonVacuity
 import JunoModel.C12.ProofsNetwork
 import JunoModel.C12.ProofsNonVacuityNet
+import JunoModel.C12.ProofsRunTrace
 /-!
 C12 — property theorems (statements only; the proofs are in `Proofs*.lean`).
 
@@ -45,7 +46,12 @@ theorem thresholds_are_the_regenerated_code (n : UInt64) :
 
 /-- Regression witness for the repaired defect (fixed: 487454a): the former formula
 `d := 2N; q := d/3 (+1)` wrapped, `q(2^63) = 0`. -/
-theorem quorum_formula_before_fix_wrapped : qUOld (UInt64.ofNat (2 ^ 63)) = 0 := qUOld_wraps
+theorem quorum_formula_before_487454a_wrapped : qUOld (UInt64.ofNat (2 ^ 63)) = 0 := qUOld_wraps
+
+/-- The error branch `N = 0` (excluded by `0 < N` above; the code does not reject it): `q = 0`, so
+every existing round entry is a quorum, and `f` wraps to `(2^64-1)/3`. A `Validators` with total
+power 0 is outside the property's premise. -/
+theorem thresholds_at_zero_total : qU 0 = 0 ∧ fU 0 = 6148914691236517205 := by decide
 
 /-- Weighted quorum intersection: with Byzantine power at most `f`, two validator sets of power at
 least `q` share a CORRECT validator. -/
@@ -62,21 +68,9 @@ validators of total power `≤ f` behaving arbitrarily (they are counted in ever
 sent every message) — two correct processes that decided at the same height decided the same
 value. -/
 theorem agreement (E : AEnv) (wf : E.WF) (h0 : Addr → Height) (s : Sys) (hr : Reach E h0 s)
-    (p p' : Addr) (hp : ¬ E.byz p) (hp' : ¬ E.byz p') (h : Height) (v v' : Val)
-    (hd : s.hist.decision p h v) (hd' : s.hist.decision p' h v') : v = v' :=
-  agreement_of_inv E wf s (inv_reach E h0 s hr) p p' hp hp' h v v' hd hd'
-
-/-- **Validity.** Every value decided by a correct process was judged valid by the application and
-was proposed for some round `r` by that round's proposer (if the proposer is correct it really
-broadcast that proposal; a Byzantine proposer may have shown it to anybody). A quorum of
-precommits for it exists in `r`. -/
-theorem decided_was_proposed_and_valid_abstract (E : AEnv) (h0 : Addr → Height) (s : Sys)
-    (hr : Reach E h0 s) (p : Addr) (hp : ¬ E.byz p) (h : Height) (v : Val)
-    (hd : s.hist.decision p h v) :
-    E.valid v = true ∧ ∃ r, PCQuorum E s.hist h r v ∧
-      (E.byz (E.proposer h r) ∨ s.hist.proposal (E.proposer h r) h r v) := by
-  obtain ⟨r, a, b, c⟩ := (inv_reach E h0 s hr p hp).decided h v hd
-  exact ⟨b, r, a, c⟩
+    (p p' : Addr) (hp : ¬ E.byz p) (hp' : ¬ E.byz p') (h : Height) (r r' : Round) (v v' : Val)
+    (hd : s.hist.decision p h r v) (hd' : s.hist.decision p' h r' v') : v = v' :=
+  agreement_of_inv E wf s (inv_reach E h0 s hr) p p' hp hp' h r r' v v' hd hd'
 
 /-- A correct process sends at most one prevote and at most one precommit per height and round. -/
 theorem one_vote_per_round_abstract (E : AEnv) (h0 : Addr → Height) (s : Sys) (hr : Reach E h0 s)
@@ -120,57 +114,60 @@ theorem timeout_before_start_breaks_one_vote :
     Action.bcastPrevote ⟨0, 0, 3, none⟩ ∈ ((Machine.new exEnv 3 0).run exEnv exUndisciplined).2 := by
   decide
 
-/-- **Lock rule.** Every prevote broadcast in a disciplined run was emitted in a machine state
-`m1` (state at the moment of emission) with `step = propose`, carries `m1`'s height, round and
-address, and satisfies the guard of lines 22–33 (`PrevoteGuardX`): a non-nil prevote is for the
-valid value of the stored proposal of the current round, and the machine is not locked, or locked
-on that value, or — the unlock condition of line 28 — the proposal's valid round `vr` satisfies
-`lockedRound ≤ vr < round` and the vote counter holds `2f+1` prevotes for the value in `vr`. -/
-theorem lock_respected (env : Env) (node : Addr) (h0 : Height) (ins : List Input)
-    (hd : Disciplined env (Machine.new env node h0) ins) (v : Vote)
-    (hv : Action.bcastPrevote v ∈ ((Machine.new env node h0).run env ins).2) :
-    ∃ m1 m2, EmittedAt env (Machine.new env node h0) ((Machine.new env node h0).run env ins).1
-        ((Machine.new env node h0).run env ins).2 (.bcastPrevote v) m1 m2 ∧
-      v = ⟨m1.state.height, m1.state.round, m1.nodeAddr, v.id⟩ ∧ m1.state.step = .propose ∧
-      PrevoteGuardX env m1 v.id := by
-  obtain ⟨m1, m2, hem⟩ := run_emitted env node h0 ins hd _ hv
-  obtain ⟨pre, mic, post, h1, h2, h3, h4, h5, h6⟩ := hem
-  exact ⟨m1, m2, ⟨pre, mic, post, h1, h2, h3, h4, h5, h6⟩, micro_prevote env m1 m2 mic h2 v h4⟩
+/-- The computed trace `runTrace` (`ModelTrace.lean`: for every emitting step of the run, the state
+of the machine at that moment and the actions it emitted — a function, no existential) IS the run:
+its actions, concatenated, are exactly the output of `Machine.run`. -/
+theorem run_trace_is_the_run (env : Env) (node : Addr) (h0 : Height) (ins : List Input)
+    (hd : Disciplined env (Machine.new env node h0) ins) :
+    traceActions ((Machine.new env node h0).runTrace env ins) = ((Machine.new env node h0).run env ins).2 :=
+  (runTrace_ok env ins _ (new_MInv env node h0) hd).1
 
-/-- Every non-nil precommit was emitted with `step = prevote`, for the valid value of the stored
-proposal of the current round, with `2f+1` prevotes for it in the vote counter (line 36), and the
-machine is locked on it afterwards (lines 38–39). -/
+/-- **Lock rule.** For every step `(m1, acts)` of the ACTUAL trace of a disciplined run and every
+prevote among `acts`: the machine was, in `m1` — the recorded state at the moment of emission — in
+step `propose`, the vote carries `m1`'s height, round and address, and the guard of lines 22–33
+(`PrevoteGuardX`) held IN `m1`: a non-nil prevote is for the valid value of the proposal stored for
+the current round, and the machine is not locked, or locked on that value, or — the unlock
+condition of line 28 — the proposal's valid round `vr` satisfies `lockedRound ≤ vr < round` and
+`m1`'s vote counter holds `2f+1` prevotes for the value in `vr`. -/
+theorem lock_respected (env : Env) (node : Addr) (h0 : Height) (ins : List Input)
+    (hd : Disciplined env (Machine.new env node h0) ins) (m1 : Machine) (acts : List Action)
+    (he : (m1, acts) ∈ (Machine.new env node h0).runTrace env ins) (v : Vote)
+    (hv : Action.bcastPrevote v ∈ acts) :
+    v = ⟨m1.state.height, m1.state.round, m1.nodeAddr, v.id⟩ ∧ m1.state.step = .propose ∧
+      PrevoteGuardX env m1 v.id := by
+  obtain ⟨m2, hm⟩ := (runTrace_ok env ins _ (new_MInv env node h0) hd).2 _ he
+  exact micro_prevote (A := AnyMsg) env m1 m2 acts hm v hv
+
+/-- Every non-nil precommit of the actual trace was emitted in a state `m1` with `step = prevote`,
+for the valid value of the proposal stored in `m1` for the current round, with `2f+1` prevotes for
+it in `m1`'s vote counter (line 36). -/
 theorem precommit_justified (env : Env) (node : Addr) (h0 : Height) (ins : List Input)
-    (hd : Disciplined env (Machine.new env node h0) ins) (v : Vote)
-    (hv : Action.bcastPrecommit v ∈ ((Machine.new env node h0).run env ins).2) :
-    ∃ m1 m2, EmittedAt env (Machine.new env node h0) ((Machine.new env node h0).run env ins).1
-        ((Machine.new env node h0).run env ins).2 (.bcastPrecommit v) m1 m2 ∧
-      v = ⟨m1.state.height, m1.state.round, m1.nodeAddr, v.id⟩ ∧ m1.state.step = .prevote ∧
+    (hd : Disciplined env (Machine.new env node h0) ins) (m1 : Machine) (acts : List Action)
+    (he : (m1, acts) ∈ (Machine.new env node h0).runTrace env ins) (v : Vote)
+    (hv : Action.bcastPrecommit v ∈ acts) :
+    v = ⟨m1.state.height, m1.state.round, m1.nodeAddr, v.id⟩ ∧ m1.state.step = .prevote ∧
       (∀ w, v.id = some w →
         (∃ p, m1.vc.getProposal m1.state.round = some p ∧ p.value = w ∧ env.valid w = true) ∧
-        m1.vc.hasQuorumForVote m1.state.round .prevote (some w) = true ∧
-        m2.state.lockedValue = some w ∧ m2.state.lockedRound = m1.state.round) := by
-  obtain ⟨m1, m2, hem⟩ := run_emitted env node h0 ins hd _ hv
-  obtain ⟨pre, mic, post, h1, h2, h3, h4, h5, h6⟩ := hem
-  exact ⟨m1, m2, ⟨pre, mic, post, h1, h2, h3, h4, h5, h6⟩, micro_precommit env m1 m2 mic h2 v h4⟩
+        m1.vc.hasQuorumForVote m1.state.round .prevote (some w) = true) := by
+  obtain ⟨m2, hm⟩ := (runTrace_ok env ins _ (new_MInv env node h0) hd).2 _ he
+  obtain ⟨a, b, c⟩ := micro_precommit (A := AnyMsg) env m1 m2 acts hm v hv
+  exact ⟨a, b, fun w hw => ⟨(c w hw).1, (c w hw).2.1⟩⟩
 
-/-- **Validity of decisions (Exec).** Every committed proposal `p` was, at the moment of the
-commit, the proposal stored in the vote counter for its round (so it passed `AddProposal`: it is
-the first proposal seen for that round and its sender is the round's proposer), is for the
-machine's current height, is valid for the application, has `2f+1` precommits for its id in its
-round, and the machine moves to the next height. -/
+/-- **Validity of decisions (Exec).** Every committed proposal `p` of the actual trace was, in the
+state `m1` in which the commit was emitted, the proposal stored in the vote counter for its round
+(it passed `AddProposal`: first proposal seen for that round, `sender` field = the round's proposer
+of ITS height), is for `m1`'s height, is valid for the application, and has `2f+1` precommits for
+its id in its round in `m1`'s vote counter (line 49). -/
 theorem decided_was_proposed_and_valid (env : Env) (node : Addr) (h0 : Height) (ins : List Input)
-    (hd : Disciplined env (Machine.new env node h0) ins) (p : Proposal)
-    (hv : Action.commit p ∈ ((Machine.new env node h0).run env ins).2) :
-    ∃ m1 m2, EmittedAt env (Machine.new env node h0) ((Machine.new env node h0).run env ins).1
-        ((Machine.new env node h0).run env ins).2 (.commit p) m1 m2 ∧
-      m1.vc.getProposal p.round = some p ∧ env.valid p.value = true ∧
+    (hd : Disciplined env (Machine.new env node h0) ins) (m1 : Machine) (acts : List Action)
+    (he : (m1, acts) ∈ (Machine.new env node h0).runTrace env ins) (p : Proposal)
+    (hv : Action.commit p ∈ acts) :
+    m1.vc.getProposal p.round = some p ∧ env.valid p.value = true ∧
       m1.vc.hasQuorumForVote p.round .precommit (some p.value) = true ∧
-      p.height = m1.state.height ∧ p.sender = env.proposer p.height p.round ∧
-      m2.state.height = m1.state.height + 1 := by
-  obtain ⟨m1, m2, hem⟩ := run_emitted env node h0 ins hd _ hv
-  obtain ⟨pre, mic, post, h1, h2, h3, h4, h5, h6⟩ := hem
-  exact ⟨m1, m2, ⟨pre, mic, post, h1, h2, h3, h4, h5, h6⟩, micro_commit env m1 m2 mic h2 p h4⟩
+      p.height = m1.state.height ∧ p.sender = env.proposer p.height p.round := by
+  obtain ⟨m2, hm⟩ := (runTrace_ok env ins _ (new_MInv env node h0) hd).2 _ he
+  obtain ⟨a, b, c, d, e, _⟩ := micro_commit (A := AnyMsg) env m1 m2 acts hm p hv
+  exact ⟨a, b, c, d, e⟩
 
 /-- The model's rule loop carries a fuel of 16 firings; it is never used up (each continuing rule
 firing decreases a measure bounded by 11), so the model's `processLoop` is the Go loop and the Go
@@ -178,18 +175,6 @@ loop terminates. -/
 theorem loop_fuel_enough (env : Env) (rr : Option Round) (m : Machine) (acc : List Action) :
     (Machine.processLoopAux env rr loopFuel m acc).2.2 = true :=
   loop_fuel_enough' env rr m acc
-
-/-- **Exec refines Abstract, step 1**: every disciplined run of the executable machine is a chain
-of micro-steps (`XMicro`), each of which is one of: nothing visible to the algorithm (WAL, timers),
-storing a received message in the vote counter, a proposal, start of a height, a move to a higher
-round, a prevote under the guard of lines 22–33, a nil precommit, a precommit of a value under the
-guard of line 36, a commit under the guard of line 49 — guards evaluated on the machine's own vote
-counter, and the change of the vote counter stated exactly. -/
-theorem exec_run_is_micro_chain (env : Env) (node : Addr) (h0 : Height) (ins : List Input)
-    (hd : Disciplined env (Machine.new env node h0) ins) :
-    XChain env AnyMsg (Machine.new env node h0) ((Machine.new env node h0).run env ins).2
-      ((Machine.new env node h0).run env ins).1 :=
-  (run_chain (A := AnyMsg) env (fun _ => trivial) ins _ (new_MInv env node h0) hd).1
 
 /-- **The vote counter is sound.** If every ballot and proposal in the machine's vote counter is
 justified by the global history (`Sim.just`: its sender is Byzantine or really sent it), then every
@@ -214,31 +199,9 @@ theorem exec_refines_abstract (E : AEnv) (env : Env) (ok : EnvOK E env) (wf : E.
     (hauth : ∀ c, RecvOf i c → AuthC E s.hist c) :
     ∃ s', Steps E s s' ∧ Sim E env s' (m.step env i).1 ∧ (m.step env i).1.nodeAddr = m.nodeAddr ∧
       (∀ q, q ≠ m.nodeAddr → s'.loc q = s.loc q) ∧ s.hist.le s'.hist ∧
-      Recorded (m.step env i).2 m.nodeAddr s'.hist :=
+      Recorded (m.step env i).2 m.nodeAddr s'.hist ∧
+      HistFrom s.hist s'.hist m.nodeAddr (m.step env i).2 :=
   step_sim E env ok wf s m i hb hsim hok hauth
-
-/-- The simulation holds initially, and is preserved by whatever the rest of the system does. -/
-theorem exec_refines_abstract_init_and_frame (E : AEnv) (env : Env) (h0 : Addr → Height) (p : Addr) :
-    Sim E env (Sys.init h0) (Machine.new env p (h0 p)) ∧
-    ∀ (s s' : Sys) (m : Machine), Sim E env s m → s.hist.le s'.hist →
-      s'.loc m.nodeAddr = s.loc m.nodeAddr → Sim E env s' m :=
-  ⟨Sim_init E env h0 p, fun s s' m h1 h2 h3 => Sim_stable E env s s' m h1 h2 h3⟩
-
-/-- **Agreement for the executable machine.** In a reachable state of the system, when the machine
-of a correct validator (simulation relation, disciplined authentic input) commits proposal `q`, the
-resulting system state is reachable and EVERY decision of EVERY correct process recorded for that
-height — by this or any other machine, earlier or in this step — is for `q`'s value. -/
-theorem exec_commit_agrees (E : AEnv) (env : Env) (ok : EnvOK E env) (wf : E.WF) (h0 : Addr → Height)
-    (s : Sys) (hr : Reach E h0 s) (m : Machine) (i : Input) (hb : ¬ E.byz m.nodeAddr)
-    (hsim : Sim E env s m) (hok : InputOK m i) (hauth : ∀ c, RecvOf i c → AuthC E s.hist c)
-    (q : Proposal) (hq : Action.commit q ∈ (m.step env i).2) :
-    ∃ s', Reach E h0 s' ∧ Sim E env s' (m.step env i).1 ∧ s'.hist.decision m.nodeAddr q.height q.value ∧
-      ∀ p' v', ¬ E.byz p' → s'.hist.decision p' q.height v' → v' = q.value := by
-  obtain ⟨s', hsteps, hsim', _, _, _, hrec⟩ := step_sim E env ok wf s m i hb hsim hok hauth
-  have hr' := Reach_steps E h0 s s' hr hsteps
-  have hd : s'.hist.decision m.nodeAddr q.height q.value := hrec _ hq
-  exact ⟨s', hr', hsim', hd, fun p' v' hp' hd' =>
-    agreement_of_inv E wf s' (inv_reach E h0 s' hr') p' m.nodeAddr hp' hb q.height v' q.value hd' hd⟩
 
 /-! ## The composed system: executable machines inside the driver's loop, over an adversarial network
 
@@ -270,12 +233,51 @@ theorem network_agreement (N : NetEnv) (ok : NetOK N) (net : Net) (hr : NetReach
     (hh : q.height = q'.height) : q.value = q'.value :=
   net_agreement N ok net hr p p' hp hp' q q' hq hq' hh
 
-/-- Every committed value is valid for the application and was proposed by the proposer of ITS
-height and round (per-height proposer schedule). -/
+/-- **Validity.** Every committed value is valid for the application, the committed proposal's
+sender is the proposer of ITS height and round (per-height proposer schedule), and that proposer —
+unless it is Byzantine — really BROADCAST a proposal with this value for this height and round
+(its machine's output contains it). -/
 theorem network_validity (N : NetEnv) (ok : NetOK N) (net : Net) (hr : NetReach N net)
     (p : Addr) (hp : ¬ N.E.byz p) (q : Proposal) (hq : Action.commit q ∈ (net.node p).out) :
-    N.E.valid q.value = true ∧ q.sender = N.E.proposer q.height q.round :=
+    N.E.valid q.value = true ∧ q.sender = N.E.proposer q.height q.round ∧
+    (N.E.byz q.sender ∨ ∃ q', Action.bcastProposal q' ∈ (net.node q.sender).out ∧
+      q'.height = q.height ∧ q'.round = q.round ∧ q'.value = q.value ∧ q'.sender = q.sender) :=
   net_validity N ok net hr p hp q hq
+
+/-- **Lock rule for the composed system.** If the machine of a correct validator broadcast a
+precommit for `v` in round `r` and a prevote for another value `v'` in a later round `r'` of the same
+height, then validators holding a quorum of the voting power — Byzantine ones, or correct ones whose
+machines really broadcast it (`NetPolka`) — prevoted `v'` in some round `vr` with `r ≤ vr < r'`: the
+unlock condition. No discipline hypothesis. -/
+theorem network_lock_respected (N : NetEnv) (ok : NetOK N) (net : Net) (hr : NetReach N net)
+    (p : Addr) (hp : ¬ N.E.byz p) (h : Height) (r r' : Round) (v v' : Val)
+    (hpc : Action.bcastPrecommit ⟨h, r, p, some v⟩ ∈ (net.node p).out)
+    (hpv : Action.bcastPrevote ⟨h, r', p, some v'⟩ ∈ (net.node p).out)
+    (hlt : r < r') (hne : v ≠ v') : ∃ vr, r ≤ vr ∧ vr < r' ∧ NetPolka N net h vr v' :=
+  net_lock_respected N ok net hr p hp h r r' v v' hpc hpv hlt hne
+
+/-- `network_agreement` under its premise spelled out for what the repository ships: it needs
+`NetOK`, i.e. voting power 0 for every address that is not a validator and `N` = the sum of the
+validators' powers. The FULL statement — agreement for every `Validators` the code accepts — is false
+(next theorem): the only implementation in the repository, `consensus/mock.go`, gives every address
+power 1 and the sync pseudo-sender power `N`, and the state machine cannot tell a gossiped precommit
+from one fabricated by the sync path (known finding `sync-pseudo-sender-…`). -/
+theorem agreement_with_shipped_validators_partial (N : NetEnv) (ok : NetOK N) (net : Net)
+    (hr : NetReach N net) (p p' : Addr) (hp : ¬ N.E.byz p) (hp' : ¬ N.E.byz p') (q q' : Proposal)
+    (hq : Action.commit q ∈ (net.node p).out) (hq' : Action.commit q' ∈ (net.node p').out)
+    (hh : q.height = q'.height) : q.value = q'.value :=
+  net_agreement N ok net hr p p' hp hp' q q' hq hq' hh
+
+/-- Proved negation for an environment of the shipped shape (`envPseudo`: four validators of power 1,
+`N = 4`, and one non-member address with power 4): with NO faulty validator, two correct validators
+that saw two genuine proposals (round 0 by validator 0, round 1 by validator 3) and ONE precommit
+each with the pseudo-sender's address commit DIFFERENT values at height 0. Both input sequences
+obey the driver's discipline; the harness replays them on the real state machine and through the
+real driver. -/
+theorem agreement_fails_with_sync_pseudo_sender :
+    Action.commit ⟨0, 0, 0, -1, 8⟩ ∈ ((Machine.new envPseudo 1 0).run envPseudo pseudoA).2 ∧
+    Action.commit ⟨0, 1, 3, -1, 12⟩ ∈ ((Machine.new envPseudo 2 0).run envPseudo pseudoB).2 := by
+  decide
 
 /-- A correct validator's machine never emits two different prevotes, nor two different precommits,
 for one height and round — in the composed system, without any assumption on the call order. -/
@@ -297,12 +299,18 @@ example : Action.bcastPrevote ⟨1, 0, 1, some 400⟩ ∈ ((Machine.new exEnv 1 
   decide
 -- the hypotheses of `agreement` are satisfiable, and a decision is reachable
 example : E4.WF := E4_wf
-example : ∃ s, Reach E4 (fun _ => 0) s ∧ s.hist.decision 0 0 8 := E4_run_decides
+example : ∃ s, Reach E4 (fun _ => 0) s ∧ s.hist.decision 0 0 0 8 := E4_run_decides
 -- the hypotheses of `exec_refines_abstract` are satisfiable: matching environments, initial simulation
 example : EnvOK E4 env4 := env4_ok
 example : NetOK N4 := ⟨E4_wf, fun _ => env4_ok⟩
 -- a reachable state of the composed system in which a machine has committed
 example : ∃ net, NetReach N4 net ∧ Action.commit ⟨0, 0, 0, -1, 8⟩ ∈ (net.node 0).out := N4_run_commits
+-- two distinct correct validators commit at one height; `Sim` holds at a non-initial state
+example : ∃ net, NetReach N4 net ∧
+    Action.commit ⟨0, 0, 0, -1, 8⟩ ∈ (net.node 0).out ∧ Action.commit ⟨0, 0, 0, -1, 8⟩ ∈ (net.node 1).out ∧
+    (net.node 0).m.state.height = 1 ∧ ∃ s, Sim N4.E (N4.envOf 0) s (net.node 0).m := N4_run_two_commit
+-- the trace of a disciplined run is not empty and contains the state in which the lock was taken
+example : ((Machine.new exEnv 1 0).runTrace exEnv exDisciplined).length = 22 := by decide
 example : Sim E4 env4 (Sys.init (fun _ => 0)) (Machine.new env4 1 0) := Sim_init E4 env4 (fun _ => 0) 1
 -- thresholds
 example : fN 4 = 1 ∧ qN 4 = 3 ∧ fN 7 = 2 ∧ qN 7 = 5 ∧ fN 10 = 3 ∧ qN 10 = 7 := by decide
